@@ -1002,5 +1002,5 @@ func vspecCWM(src []byte) int { return vspecCW(src) + 2 + vspecBE16(src, vspecCW
 //@   results n, err
 //@   flag args self, dst
 //@   ensures err == nil ==> 0 <= n && n <= len(dst) && n <= 268435460
-//@   ensures[ghostdef-lastenc] gfield(0, "encn") == n && gfield(0, "encarr") == arr(dst) && gfield(0, "encoff") == off(dst)
-//@   modifies elems(dst), heap("F.message.header.remlen"), heap("F.message.header.dirty"), heap("F.message.header.packetID"), gPacketID, gfield(0, "encn"), gfield(0, "encarr"), gfield(0, "encoff")
+//@   ensures[ghostdef-lastenc] gfield(0, "encn") == n && gfield(0, "encarr") == arr(dst) && gfield(0, "encoff") == off(dst) && gfield(0, "encAt") == gfield(0, "clock")
+//@   modifies elems(dst), heap("F.message.header.remlen"), heap("F.message.header.dirty"), heap("F.message.header.packetID"), gPacketID, gfield(0, "encn"), gfield(0, "encarr"), gfield(0, "encoff"), gfield(0, "encAt")
